@@ -457,6 +457,14 @@ def singular_bins(d, ctx):
             xx[f] = a @ a.conj().T
     which = d.choice(['souden', 'wmwf'])
     ref = d.int(0, D - 1)
+    # the automatic reference channel ("Also zero matrices work") in one case
+    # of four; it needs a three-dimensional input, which this is
+    # (not together with a rank-deficient non-zero noise matrix: there the
+    # filter matrix itself is not finite - the known finding - and the
+    # selection refuses it with its isfinite assertion)
+    if d.aux(133).integers(0, 3) == 0 and not any(
+            k_ in ('noise-lowrank', 'both-lowrank') for k_ in kinds):
+        ref = None
     mu = d.choice([1.0, 0.5, 10.0])
     ctx.describe(F=F, D=D, bad=bad, kinds=kinds, which=which, ref=ref)
     ctx.label(which, *set(kinds))
@@ -468,6 +476,18 @@ def singular_bins(d, ctx):
 
     out = ctx.lib(call, xx, nn)
     require(np.shape(out) == (F, D), 'shape', f'{np.shape(out)}')
+    if ref is None:
+        # the reference channel is chosen once for all bins (so sub-stacks may
+        # choose another one): only "finite on regular and zero bins" is judged
+        ctx.label('automatic-reference-channel')
+        for f in range(F):
+            k_ = kinds[bad.index(f)] if f in bad else 'regular'
+            if k_ in ('regular', 'noise-zero', 'target-zero', 'both-zero'):
+                require(np.all(np.isfinite(out[f])), 'not-finite-on-singular-bin',
+                        f'bin {f} ({k_}) with the automatic reference channel',
+                        which=which, kind=k_)
+        ctx.nontrivial(True)
+        return
     # the same problems inside a stack with an extra leading axis, contiguous
     # and as a transposed (non-contiguous) view: every copy gives the result
     # of the single problem
